@@ -19,7 +19,7 @@ Qed.
 Lemma delegated_trace cfg e w p tape b :
   rr_out (recv cfg e w p tape) = ODelegated b -> rr_trace (recv cfg e w p tape) = [(CWrapped, b)].
 Proof.
-  unfold recv, recv_lie, recv_with.
+  unfold recv, recv_lie, recv_with, recv_generic.
   repeat match goal with
   | |- context [if ?c then _ else _] => destruct c; cbn [result_of rr_out]; try discriminate
   end.
